@@ -297,14 +297,49 @@ Proof.
   exists r2. cbn [Nat.add]. erewrite run_ops_step; [| subst ps pi; lia | exact Hs]. f_equal. subst ps pi. lia.
 Qed.
 
+(* ---- set the <name> of o = v ---- *)
+Lemma exec_set_acc en props n o v : wf_s en (SSetAcc n o v) -> exec_s_spec en props (SSetAcc n o v).
+Proof.
+  intros (Hn & H256 & Ho & Hv) d off len a fuel r m [Hag Hpr] Hst Hc Hoff Hlen.
+  cbn [compile_s ninstr_s] in *. rewrite !zlen_app in *. rewrite !zlen_cons, zlen_nil in *.
+  apply code_at_app in Hc. destruct Hc as [Hco Hc]. apply code_at_app in Hc. destruct Hc as [Hcv Hcs].
+  pose proof (zlen_nonneg (compile_e o)). pose proof (zlen_nonneg (compile_e v)).
+  replace (ninstr o + (ninstr v + 1) + fuel)%nat with (ninstr o + (ninstr v + (1 + fuel)))%nat by lia.
+  destruct (exec_e en o Ho d off len a (ninstr v + (1 + fuel))%nat r m Hag Hco ltac:(lia) ltac:(lia)) as [r1 E1]. rewrite E1.
+  set (m1 := after_e en a o m). set (pv := a + zlen (compile_e o)) in *.
+  pose proof (agrees_after_e en a o m Hag) as Hag1. fold m1 in Hag1.
+  destruct (exec_e en v Hv d off len pv (1 + fuel)%nat r1 m1 Hag1 Hcv ltac:(subst pv; lia) ltac:(subst pv; lia)) as [r2 E2]. rewrite E2.
+  set (m2 := after_e en pv v m1). set (ps := pv + zlen (compile_e v)) in *.
+  pose proof (agrees_after_e en pv v m1 Hag1) as Hag2. fold m2 in Hag2. destruct Hag2 as (Hnm & _).
+  assert (Hs : exists r', step d ps r2 m2 = Ok (ps + 2, r', after_s en props a (SSetAcc n o v) m)).
+  { eapply step_2 with (proc := "AssignPropertyAccesorOpcode") (attr := "") (oc := OAssignPropertyAccessor); [exact Hcs | reflexivity | reflexivity |].
+    intros p2. cbn [process]. rewrite u8_b by lia. unfold pop. subst m2. rewrite after_e_stack. cbn [bind].
+    unfold with_stack at 1. cbn [m_stack]. subst m1. rewrite after_e_stack. cbn [bind].
+    cbn [m_ctx with_stack] in *.
+    rewrite Hnm, nth_name_ok by exact Hn. cbn [bind]. fold (nm en n). f_equal.
+    unfold after_s, stmt_assign, add_stmt, with_stack. cbn [reify_s globals_s].
+    apply mstate_eq; cbn [m_stack m_ctx m_fn f_globals f_name f_pos f_params f_locals f_stmts f_is_method set_stmts].
+    - rewrite Hst. reflexivity.
+    - destruct m as [? [? ? ? ? ? ? ?] ?]; reflexivity.
+    - rewrite !after_e_globals. rewrite add_globals_app. reflexivity.
+    - destruct m as [? [? ? ? ? ? ? ?] ?]; reflexivity.
+    - destruct m as [? [? ? ? ? ? ? ?] ?]; reflexivity.
+    - destruct m as [? [? ? ? ? ? ? ?] ?]; reflexivity.
+    - destruct m as [? [? ? ? ? ? ? ?] ?]; reflexivity.
+    - subst ps pv. destruct m as [? [? ? ? ? ? ? ?] ?]; reflexivity.
+    - destruct m as [? [? ? ? ? ? ? ?] ?]; reflexivity. }
+  destruct Hs as [r3 Hs]. exists r3. cbn [Nat.add]. erewrite run_ops_step; [| subst ps pv; lia | exact Hs]. f_equal. subst ps pv. lia.
+Qed.
+
 Theorem exec_s en props s : wf_s en s -> exec_s_spec en props s.
 Proof.
-  destruct s as [t e|f args|f args|f pid o v|k i v]; intros Hwf.
+  destruct s as [t e|f args|f args|f pid o v|k i v|n o v]; intros Hwf.
   - apply exec_set; exact Hwf.
   - apply (exec_call_stmt en props false f args); exact Hwf.
   - apply (exec_call_stmt en props true f args); exact Hwf.
   - apply exec_set_obj; exact Hwf.
   - apply exec_set_the; exact Hwf.
+  - apply exec_set_acc; exact Hwf.
 Qed.
 
 (* ---- a sequence of statements ---- *)
